@@ -216,6 +216,22 @@ pub fn replay_one(b: &Value) -> Option<String> {
                                 return Some(format!("solve: x[{}] = {} but exact solution is {}", i, rhs[i], rat(&x[i])));
                             }
                         }
+                        // scaling the matrix by a power of two commutes with every operation of the factorisation (no
+                        // regularisation thresholds are involved here): same L bit for bit, D scaled, whatever the magnitude
+                        if b["reg"].as_array().unwrap().is_empty() {
+                            for sc in [2f64.powi(-70), 2f64.powi(70)] {
+                                let mut A2 = A.clone();
+                                for v in A2.nzval.iter_mut() { *v *= sc; }
+                                match QDLDLFactorisation::new(&A2, Some(opts(b, n))) {
+                                    Err(e) => return Some(format!("the matrix scaled by {:e} fails with {} although the unscaled matrix factors", sc, errname(&e))),
+                                    Ok(f2) => {
+                                        if f2.L.nzval.iter().zip(&f.L.nzval).any(|(u, v)| u.to_bits() != v.to_bits()) || f2.D.iter().zip(&f.D).any(|(u, v)| u.to_bits() != (v * sc).to_bits()) {
+                                            return Some(format!("the matrix scaled by {:e} does not give the same L and the scaled D", sc));
+                                        }
+                                    }
+                                }
+                            }
+                        }
                         // the default ordering (AMD, chosen by the engine when no permutation is supplied): without
                         // regularisation the solution of A x = b does not depend on the ordering; an ordering under which
                         // a pivot vanishes is reported as ZeroPivot (legitimately ordering dependent), anything else is wrong
